@@ -106,6 +106,9 @@ func solveObl(vc *VC, o *Obl, dir string, tier string, seed int, idx int) {
 	if tier == "thorough" {
 		quickT, slowT = 20, 90
 	}
+	if tier == "last" {
+		quickT, slowT = 45, 90
+	}
 	ctx := context.Background()
 	if o.MustSat {
 		// vacuity probe: quantifier-free script, one solver, short budget; undecided is acceptable
